@@ -46,6 +46,24 @@ use crate::utils::IDENTITY_VAULT_PATH;
 #[derive(Clone, Debug)]
 pub struct StrongholdStorage(Arc<SecretManager>);
 
+/// The key of the Stronghold is not available, see [`StrongholdStorage::ensure_unlocked`].
+pub(crate) struct StrongholdLocked;
+
+const STRONGHOLD_LOCKED: &str = "the key of the stronghold is not available: set the password (again)";
+
+impl From<StrongholdLocked> for KeyStorageError {
+  fn from(_: StrongholdLocked) -> Self {
+    KeyStorageError::new(KeyStorageErrorKind::Unauthenticated).with_custom_message(STRONGHOLD_LOCKED)
+  }
+}
+
+impl From<StrongholdLocked> for identity_storage::KeyIdStorageError {
+  fn from(_: StrongholdLocked) -> Self {
+    identity_storage::KeyIdStorageError::new(identity_storage::KeyIdStorageErrorKind::Unauthenticated)
+      .with_custom_message(STRONGHOLD_LOCKED)
+  }
+}
+
 impl StrongholdStorage {
   /// Creates a new [`StrongholdStorage`].
   pub fn new(stronghold_secret_manager: StrongholdSecretManager) -> Self {
@@ -57,6 +75,19 @@ impl StrongholdStorage {
     self.0.as_ref()
   }
 
+  /// Fails unless the key of the Stronghold is available.
+  ///
+  /// Without the key (it has not been set yet, `clear_key` was called, or the configured timeout has elapsed) the
+  /// snapshot is not loaded. The identity client would then be created anew and empty: every key and key id would
+  /// seem to be gone, and that empty client would shadow the real one, so that the next successful write after the
+  /// password has been set again replaces the snapshot's keys and key ids with nothing.
+  pub(crate) async fn ensure_unlocked(&self) -> Result<(), StrongholdLocked> {
+    match *self.0 {
+      SecretManager::Stronghold(ref stronghold) if stronghold.is_key_available().await => Ok(()),
+      _ => Err(StrongholdLocked),
+    }
+  }
+
   /// Acquire lock of the inner [`Stronghold`].
   pub(crate) async fn get_stronghold(&self) -> MutexGuard<'_, Stronghold> {
     match *self.0 {
@@ -66,6 +97,7 @@ impl StrongholdStorage {
   }
 
   async fn get_ed25519_public_key(&self, key_id: &KeyId) -> KeyStorageResult<Jwk> {
+    self.ensure_unlocked().await?;
     let stronghold = self.get_stronghold().await;
     let client = get_client(&stronghold)?;
 
@@ -97,6 +129,7 @@ impl StrongholdStorage {
 
   #[cfg(feature = "bbs-plus")]
   async fn get_bls12381g2_public_key(&self, key_id: &KeyId) -> KeyStorageResult<Jwk> {
+    self.ensure_unlocked().await?;
     let stronghold = self.get_stronghold().await;
     let client = get_client(&stronghold)?;
 
@@ -132,6 +165,7 @@ impl StrongholdStorage {
   /// Retrieve the public key corresponding to `key_id`.
   #[deprecated(since = "1.3.0", note = "use `get_public_key_with_type` instead")]
   pub async fn get_public_key(&self, key_id: &KeyId) -> KeyStorageResult<Jwk> {
+    self.ensure_unlocked().await?;
     let stronghold = self.get_stronghold().await;
     let client = get_client(&stronghold)?;
 
